@@ -147,6 +147,54 @@ def glushkov(r):
     return pos, F, FO
 
 
+def glushkov_full(r):
+    """(positions, nullable, first, last, follow)"""
+    pos = []
+
+    def go(r):
+        t = r[0]
+        if t == 'sym':
+            pos.append(r[1:]); p = len(pos) - 1
+            return False, {p}, {p}, {}
+        if t in ('star', 'opt'):
+            n, f, l, fo = go(r[1])
+            if t == 'star':
+                for p in l: fo.setdefault(p, set()).update(f)
+            return True, f, l, fo
+        if t == 'alt':
+            nl, F, Lq, FO = False, set(), set(), {}
+            for c in r[1]:
+                n, f, l, fo = go(c); nl |= n; F |= f; Lq |= l
+                for k, v in fo.items(): FO.setdefault(k, set()).update(v)
+            if not r[1]: nl = True
+            return nl, F, Lq, FO
+        nl, F, Lq, FO = True, set(), set(), {}
+        for c in r[1]:
+            n, f, l, fo = go(c)
+            for k, v in fo.items(): FO.setdefault(k, set()).update(v)
+            for p in Lq: FO.setdefault(p, set()).update(f)
+            if nl: F |= f
+            Lq = (Lq | l) if n else set(l)
+            nl = nl and n
+        return nl, F, Lq, FO
+    n, F, Lq, FO = go(r)
+    return pos, n, F, Lq, FO
+
+
+def greedy_in_language(m, w):
+    """the XSD 1.1 reading in which, wherever an element particle and a wildcard can both take the next child, only the element particle does
+    (subset simulation of the position automaton with the wildcard transitions dropped when an element transition exists)"""
+    pos, nullable, F, L, FO = glushkov_full(unroll(m, {}))
+    cur = None
+    for c in w:
+        nxt = F if cur is None else set().union(*[FO.get(p, set()) for p in cur]) if cur else set()
+        cand = {p for p in nxt if c in pos[p][0]}
+        if any(pos[p][2] == 'e' for p in cand): cand = {p for p in cand if pos[p][2] == 'e'}
+        if not cand: return False
+        cur = cand
+    return nullable if cur is None else bool(cur & L)
+
+
 def upa_ok(m, version='1.0'):
     """True iff no prefix can be attributed to two different particles (Structures 3.8.6).  XSD 1.1: an element particle
     competing with a wildcard is resolved in favour of the element (no violation); wildcard vs wildcard still is."""
